@@ -279,3 +279,64 @@ func ServerScenario(t *rapid.T, p Profile) sim.Scenario {
 	}
 	return sc
 }
+
+// CancelRaceScenario: all slots taken by parked calls, then one more call that
+// a pin holds in front of the slot semaphore while CancelRequest names it and
+// (often) a slot is given back; then everything is released.
+func CancelRaceScenario(t *rapid.T) sim.Scenario {
+	sc := sim.Scenario{}
+	limit := pick(t, "limit", []int{1, 1, 2, 3})
+	sc.Cfg.Concurrency = limit
+	sc.Cfg.Salt = rapid.Uint64().Draw(t, "salt")
+	sc.Cfg.Chan = pick(t, "chan", []string{"direct", "pipe"})
+	sc.Cfg.Pins = []sim.Pin{{Site: "srv.invoke.acquire", Delay: pick(t, "hold", []int{200000, 200000, 100000})}}
+	if rapid.Bool().Draw(t, "slowcancel") {
+		sc.Cfg.Pins = append(sc.Cfg.Pins, sim.Pin{Site: "srv.cancel.lock", Delay: pick(t, "cdelay", []int{1, 50, 9000, 300000})})
+	}
+	k, id := 0, 0
+	call := func(method string, burst bool) (int, int) {
+		k++
+		id++
+		sc.Steps = append(sc.Steps, sim.Step{Op: "send", Burst: burst,
+			Rec: engine.Bytes(fmt.Sprintf(`{"jsonrpc":"2.0","id":%d,"method":%q,"params":{"k":%d}}`, id, method, k))})
+		return k, id
+	}
+	var fillers []int
+	nfill := rapid.IntRange(max(0, limit-1), limit).Draw(t, "fillers")
+	for i := 0; i < nfill; i++ {
+		fk, _ := call("gate", false)
+		fillers = append(fillers, fk)
+	}
+	var parked []int
+	rounds := rapid.IntRange(1, 3).Draw(t, "rounds")
+	for r := 0; r < rounds; r++ {
+		xk, xid := call(pick(t, "xmethod", []string{"ret", "ret", "gate"}), true)
+		parked = append(parked, xk)
+		// the cancel and, perhaps, a slot coming back - all while the call is held
+		order := rapid.IntRange(0, 2).Draw(t, "order")
+		// (the call needs a few hook delays to get there, and stays for the pin's delay)
+		cancel := sim.Step{Op: "cancel", ID: fmt.Sprint(xid), Burst: true, After: pick(t, "cafter", []int{45000, 45000, 30000, 5000})}
+		var release *sim.Step
+		if len(fillers) > 0 && rapid.IntRange(0, 3).Draw(t, "giveback") != 0 {
+			release = &sim.Step{Op: "release", K: fillers[0], Out: "ok", Burst: true, After: pick(t, "rafter", []int{0, 40000, 47000, 60000, 150000})}
+			fillers = fillers[1:]
+		}
+		switch {
+		case release == nil:
+			sc.Steps = append(sc.Steps, cancel)
+		case order == 0:
+			sc.Steps = append(sc.Steps, cancel, *release)
+		default:
+			sc.Steps = append(sc.Steps, *release, cancel)
+		}
+		sc.Steps[len(sc.Steps)-1].Burst = false
+		if rapid.Bool().Draw(t, "refill") {
+			fk, _ := call("gate", false)
+			fillers = append(fillers, fk)
+		}
+	}
+	for _, fk := range append(fillers, parked...) {
+		sc.Steps = append(sc.Steps, sim.Step{Op: "release", K: fk, Out: "ok"})
+	}
+	return sc
+}
